@@ -29,6 +29,7 @@ STRATS = {"all": 0, "comp": 1, "bt": 2}
 MAX_GLUED = 120            # per (variant, strategy): beyond this only the oracle sees the case
 MAX_RAW = 400
 MAX_HOST = 70
+MAX_ISO = 40             # glued graphs per run compared up to isomorphism by the oracle (strings are always compared)
 
 RULE = ("(template, substrate, direction, hydrogen mode) as in C03 (centre / full ITS of corpus reactions on their own and on foreign "
         "substrates, hand-made rules with symmetric or multi-component left sides), each written in several ways: substrate SMILES "
@@ -347,7 +348,9 @@ def _observe(case, v, st):
         return dict(err=rec.its_err, std=set(), iso={}, nraw=len(rec.raw), nkept=len(rec.mappings), rec=rec, dropped=0)
     std, dropped = _std_set(rec.smarts)
     live = [g for g, s in zip(rec.its_list, rec.smarts_log) if s]
-    return dict(err=None, std=std, iso=_iso_classes(live), nraw=len(rec.raw), nkept=len(rec.mappings), rec=rec, dropped=dropped)
+    # the graph-level comparison is quadratic in the number of results: beyond MAX_ISO glued graphs only the strings are compared
+    iso = _iso_classes(live) if len(live) <= MAX_ISO else None
+    return dict(err=None, std=std, iso=iso, nraw=len(rec.raw), nkept=len(rec.mappings), rec=rec, dropped=dropped)
 
 
 def _host_iso(a, b):
@@ -500,7 +503,7 @@ def oracle(case):
                 fail("invariant-" + kind, "strategy %s: %d distinct reactions for (%s ; %s), %d for variant %s (%s ; %s); raw matches %d/%d kept %d/%d; only in base %r; only in variant %r"
                      % (st, len(a["std"]), base["sub"], base["rsmi"], len(b["std"]), v["v"], v["sub"], v["rsmi"], a["nraw"], b["nraw"], a["nkept"], b["nkept"],
                         sorted(a["std"] - b["std"])[:2], sorted(b["std"] - a["std"])[:2]))
-            elif not _same_iso_sets(a["iso"], b["iso"]):
+            elif a["iso"] is not None and b["iso"] is not None and not _same_iso_sets(a["iso"], b["iso"]):
                 fail("invariant-its-" + kind, "strategy %s: glued ITS graphs (those that serialise) of variant %s (%s ; %s) are not the base's up to isomorphism (%d vs %d classes)"
                      % (st, v["v"], v["sub"], v["rsmi"], sum(map(len, b["iso"].values())), sum(map(len, a["iso"].values()))))
     # strategies
@@ -512,7 +515,7 @@ def oracle(case):
             continue
         if not C["std"] <= A["std"]:
             fail("comp-subset", "writing %s (%s ; %s): component-aware results not among the exhaustive ones: %r" % (v["v"], v["sub"], v["rsmi"], sorted(C["std"] - A["std"])[:2]))
-        elif not _sub_iso_sets(C["iso"], A["iso"]):
+        elif C["iso"] is not None and A["iso"] is not None and not _sub_iso_sets(C["iso"], A["iso"]):
             fail("comp-subset-its", "writing %s (%s ; %s): a glued ITS graph of the component-aware strategy is not isomorphic to any of the exhaustive strategy" % (v["v"], v["sub"], v["rsmi"]))
         if C["std"] and B["std"] != C["std"]:
             fail("bt-equals-comp", "writing %s (%s ; %s): fallback strategy gives %d reactions, component-aware %d (non-empty)" % (v["v"], v["sub"], v["rsmi"], len(B["std"]), len(C["std"])))
